@@ -657,6 +657,11 @@ def jpeg_bytes(rng, w, h, extra, napp=None):
         # APPn, DQT, COM and the 0xC? markers that are NOT frame headers (DHT, JPG, DAC), DRI
         out += bytes([0xFF, rng.choice([0xE0, 0xE1, 0xE2, 0xEE, 0xDB, 0xFE, 0xC4, 0xC4, 0xC8, 0xCC, 0xDD])]) + \
             struct.pack(">H", ln) + payload
+    if rng.random() < 0.04:
+        # embedded profiles / thumbnails: more than 64 KiB of segments before the frame header
+        for _ in range(rng.randint(2, 4)):
+            ln = rng.randint(30000, 65535)
+            out += bytes([0xFF, rng.choice([0xE1, 0xE2])]) + struct.pack(">H", ln) + bytes(ln - 2)
     m = rng.choice(SOF_MARKERS)
     out += bytes([0xFF, m]) + struct.pack(">H", 17) + bytes([8]) + struct.pack(">HH", h, w)
     out += bytes([3, 1, 0x22, 0, 2, 0x11, 1, 3, 0x11, 1])
